@@ -33,7 +33,17 @@ def padding_aware_methods():
 def gen_cases(tier, seed):
     rnd = random.Random(seed)
     aware = padding_aware_methods()
+    import copy
+    invs = []
     for inv in invocations():
+        invs.append(inv)
+        if inv.callid == 29 and inv.args[0] in (0x16, 0x06, 0x10, 0x19):
+            for sz in (0, 1):       # extended data of 0 and 1 bytes (0 is a legal, validated size)
+                v = copy.copy(inv)
+                v.args = list(inv.args)
+                v.args[18], v.args[19] = 1, sz
+                invs.append(v)
+    for inv in invs:
         name = inv.name.split('(')[0]
         if name not in aware:
             continue
@@ -54,7 +64,7 @@ def gen_cases(tier, seed):
                     for reply, sd, rs, tag in respspec.gen(inv, h0.cfg, rnd):
                         if rs is None and inv.callid == 29 and inv.args[0] in (4, 0x18, 5, 6, 0x10, 0x19):
                             rs = 1
-                        if rs is None:
+                        if rs is None or 'reads all' in tag:      # after a read-all codec, zeros are data, not padding
                             continue
                         for n in range(0, 2 * rs + 2):
                             c = cl.H(cfgv, dids=dt).call(inv.callid, inv.args, inv.blobs, [(10, reply + b'\x00' * n)]).case(5000, '%s / %s' % (name, tag))
@@ -70,13 +80,15 @@ def impl(c):
     return cl.run_history_case(c)
 
 
-def zero_records(callid, sub, k):
+def zero_records(callid, sub, k, extrec=None, size=0):
     """rendering of k extra all-zero DTC records for the parsers whose padding can form whole records"""
     from harness.respspec import dtc_render
     if sub in (0x08, 0x09):
         return [dtc_render(0, 0, 0, 0)] * k
     if sub == 0x14:
         return [dtc_render(0, fault=0)] * k
+    if sub == 0x16:
+        return [dtc_render(0, 0, ext=[(extrec, bytes(size))])] * k
     return [dtc_render(0, 0)] * k
 
 
@@ -89,7 +101,7 @@ def oracle(c, r):
     tol, ign = cfgv[cl.TOL_PAD] == 1, cfgv[cl.IGN_ZERO] == 1
     d = cl.parse_calls(r, 1)[0][0]
     name = c.tag.split(' / ')[0]
-    whole_records = callid == 29 and sub in (0x03, 0x02, 0x0A, 0x0B, 0x0C, 0x0D, 0x0E, 0x0F, 0x13, 0x15, 0x17, 0x08, 0x09, 0x14, 0x42, 0x55)
+    whole_records = callid == 29 and sub in (0x03, 0x02, 0x0A, 0x0B, 0x0C, 0x0D, 0x0E, 0x0F, 0x13, 0x15, 0x17, 0x08, 0x09, 0x14, 0x42, 0x55, 0x16)
     if d['kind'] == 'raised' and d['err'] >= 20:
         return ('internal-error/%s' % name, 'padding of %d bytes raised internal error %d' % (n, d['err']))
     if tol:
@@ -98,16 +110,19 @@ def oracle(c, r):
             # each whole all-zero record among the padding is a genuine record (DTC 0)
             k = n // rs
             if isinstance(sd, list):
-                extra = zero_records(callid, sub, k)
+                extra = zero_records(callid, sub, k, ops[0][2][13] if sub == 0x16 else None, rs - 4)
                 want = list(sd)
                 want[6] = sd[6] + k
                 want[7] = sd[7] + k
                 for x in extra:
                     want = want + x
+        if callid == 29 and sub == 0x16 and not ign and n // rs >= 2:
+            # by-record-number extended data: two genuine records of the same DTC (0) for one record number are a malformed response
+            if d['kind'] == 'raised' and d['err'] == 6 or d['kind'] == 'returned' and not d['resp']['valid']:
+                return None
+            return ('tolerant-changed/%s' % name, 'ignore_all_zero_dtc off, %d whole zero records: expected an invalid response (DTC 0 twice), got %s' % (n // rs, d['kind']))
         if callid == 29 and sub == 0x03 and not ign:
             return None   # snapshot identification: zero records merge into one DTC 0 (dict semantics), compared by the model only
-        if callid == 29 and sub == 0x16 and not ign:
-            return None   # record-number extended data: zero DTC records are read when they fit; compared by the model only
         if callid == 29 and sub == 0x09 and not ign and n // rs > 0:
             return None
         if isinstance(want, tuple):
